@@ -236,7 +236,9 @@ CHECKS = {
               dict(apalache="VanityObsInd", tag="VanityObsInd_N4", cinit="ConstInit4", init="Init", indinit="IndInit", inv="IndInv",
                    tiers=("thorough",), timeout=14000),
               # every number of workers, every candidate space, unbounded requests: machine-checked proof
-              dict(tlaps="VanityProof", tag="VanityProof")],
+              dict(tlaps="VanityProof", tag="VanityProof"),
+              # ... and the judge's soundness for every number of workers: Spec => []JudgeSound
+              dict(tlaps="VanityObsProof", tag="VanityObsProof")],
         gen=[dict(module="Gen_C18", slices=dict(quick=8, thorough=8), profiles=dict(quick=["dev"], thorough=["dev", "release"])),
              SCHED_FULL],
         rule="MC_Vanity: all interleavings of main + N in 0..3 (thorough: 0..4) workers + channel + granting/refusing entropy environment "
@@ -249,7 +251,9 @@ CHECKS = {
              "every exit is one the judge admits) without a bound on the requests, for 3 (thorough: 4) workers - the observer "
              "operators are shared with MC_Vanity, where TLC checks that they agree with those of Vanity.tla; TLAPS checks a proof (spec/tlaps/VanityProof.tla, 106 obligations) of "
              "the same safety property and of 'nothing is printed unless the run exits through printed' for EVERY number of "
-             "workers and candidates; MC_Prefix: prefix grammar over all strings <= 4 over "
+             "workers and candidates, and a second proof (spec/tlaps/VanityObsProof.tla, 505 obligations) of Spec => []JudgeSound "
+             "for the machine with the observer: the judge admits every behaviour for every number of workers, every "
+             "candidate space and any number of requests; MC_Prefix: prefix grammar over all strings <= 4 over "
              "{0..9 a f A F g x}; Gen_C18: real searches under the entropy shim: 22 single digits x -j {0,1,2,16}, "
              "two-digit (three-digit thorough) prefixes in lower/upper/mixed case, vanity password/index/path/length "
              "variants, repetitions, non-hex prefixes and unusable selectors; Gen_C18sched (spec -> implementation): the "
